@@ -220,7 +220,10 @@ func checkC03(c CaseC03) (*vkit.Failure, vkit.Meta) {
 			if b.overlapped >= 2 {
 				m.Labels = append(m.Labels, "bodies-overlapped")
 			}
-			if b.tr.maxOv >= 2 {
+			b.tr.mu.Lock()
+			maxOv := b.tr.maxOv
+			b.tr.mu.Unlock()
+			if maxOv >= 2 {
 				m.Labels = append(m.Labels, "overflow-list>=2")
 			}
 			m.NonTrivial = b.overlapped >= 2
